@@ -166,11 +166,12 @@ CHECKS = {
         "reports the network equations of the original circuit (prune_same_matrix, via C02). Closed under the global context. The tie "
         "inserts empty models and dead solvers (nested, shared between placements) at random places and depths, calls prune() on /repo "
         "and compares the returned flag, the tree of remaining structures at every level, and solve() after prune with the model."
-        " Dead leaves include pin-less models that carry a matrix and unmapped solved results; after prune the free pins of every surviving level are compared with the unconnected ports of the surviving components. Dead branches that still own connected pins (a sub-solver wired while it had pins, emptied before prune()) are generated too; a prune() that raises is reported with the hierarchy as replay.",
+        " Dead leaves include pin-less models that carry a matrix and unmapped solved results; after prune the free pins of every surviving level are compared with the unconnected ports of the surviving components. Dead branches that still own connected pins (a sub-solver wired while it had pins, emptied before prune()) are generated too; a prune() that raises is reported with the hierarchy as replay."
+        " On every run harness/translate_prune.py reads the CURRENT source of Solver.prune and Model.is_empty and coq/templates/PruneSrcProof.v proves prune_src c = (Prune.prune c, Prune.dead c) for every hierarchy (closed).",
    note="Trusted: Coq kernel + vm_compute; Bignums primitives for the executed instance; models Prune.v/Hier.v tied by sampled "
         "correspondence; harness. prune_same_matrix assumes dead sub-solvers hold no connections (nothing can be wired to a pin-less "
         "structure) and is conditional on the model returning Ok.",
-   technique="Coq proof by induction over hierarchies + vm_compute correspondence (shape, flag, matrix)", design="§5 C19"),
+   technique="Coq proof by induction over hierarchies + vm_compute correspondence (shape, flag, matrix) + source-to-Gallina translation of Solver.prune proved equal to Prune.prune / Prune.dead on every run", design="§5 C19"),
  "C17": dict(
    text="Proof: props/C17.v, by structural induction over ALL programs built from helper calls, sequencing, with-blocks, raise and "
         "try/except (any nesting depth, exceptions at any point, solvers re-entered while already active): the stack of active solvers "
